@@ -16,7 +16,7 @@ import (
 
 func init() {
 	register(&Prop{ID: "C16", Run: runC16, MinNontrivial: 500,
-		Rule:        "cases = (BuildAuthBodyPost, BuildAuthBodyPostFromDocument, BuildLogoutBodyPostFromDocument, BuildLogoutResponseBodyPostFromDocument) x relay states (quotes, angle brackets, ampersands, </form>, </script>, script fragments, attribute breakers, newlines, CR, non-ASCII, astral, long) x signed/unsigned/caller-made documents x URL-safe IdP endpoints with and without query; oracle tokenises the page with golang.org/x/net/html (an HTML5 tokenizer independent of html/template) and requires exactly the expected token sequence: one form (action == endpoint), hidden SAMLRequest|SAMLResponse == base64(doc.WriteToBytes()), RelayState input present iff non-empty and equal after entity decoding, the submit input, script elements with the fixed template text, nothing else; non-trivial = a page was produced; distinct by parameter tuple; relay states swept over every string literal of the library source; IdP endpoints re-configured between building the document and rendering; relay states that are not valid UTF-8",
+		Rule:        "cases = (BuildAuthBodyPost, BuildAuthBodyPostFromDocument, BuildLogoutBodyPostFromDocument, BuildLogoutResponseBodyPostFromDocument) x relay states (quotes, angle brackets, ampersands, </form>, </script>, script fragments, attribute breakers, newlines, CR, non-ASCII, astral, long) x signed/unsigned/caller-made documents x URL-safe IdP endpoints with and without query; oracle tokenises the page with golang.org/x/net/html (an HTML5 tokenizer independent of html/template) and requires exactly the expected token sequence: one form (action == endpoint), hidden SAMLRequest|SAMLResponse == base64(doc.WriteToBytes()), RelayState input present iff non-empty and equal after entity decoding, the submit input, script elements with the fixed template text, nothing else; non-trivial = a page was produced; distinct by parameter tuple; relay states swept over every string literal of the library source; IdP endpoints re-configured between building the document and rendering; relay states that are not valid UTF-8; caller-made documents of 20 - 320 KB; an empty SSO or SLO endpoint (an eighth of the cases)",
 		Assumptions: []string{"NUL and U+000D are excluded from relay states (not representable in an HTML form: HTML input-stream preprocessing turns CR/CRLF into LF, and form submission re-normalises newlines)", "IdP endpoints are URL-safe (html/template normalises exotic URLs in action=)"}})
 }
 
@@ -149,6 +149,14 @@ func runC16(c *mon.Ctx) {
 		sp.IdentityProviderSSOURL, sp.IdentityProviderSLOURL = ep, ep+"-slo"
 		if strings.Contains(ep, "?") {
 			sp.IdentityProviderSLOURL = ep + "&slo=1"
+		}
+		if r.IntN(8) == 0 {
+			// an endpoint that is not configured (empty) is not another endpoint: the form then has the empty action
+			if r.IntN(2) == 0 {
+				sp.IdentityProviderSLOURL = ""
+			} else {
+				sp.IdentityProviderSSOURL = ""
+			}
 		}
 		relay := c16Relay[r.IntN(len(c16Relay))]
 		switch r.IntN(12) {
